@@ -270,6 +270,14 @@ func slice(fr *frame, x, lo, hi, max value) value {
 	if r, ok := x.(*rope); ok {
 		return r.slice(fr, lo, hi)
 	}
+	if rb, ok := x.(ropeBytes); ok {
+		switch s := rb.r.(type) {
+		case *rope:
+			return mkRopeBytes(s.slice(fr, lo, hi))
+		case string:
+			return mkRopeBytes(slice(fr, s, lo, hi, nil))
+		}
+	}
 	var Len, Cap int
 	switch x := x.(type) {
 	case string:
@@ -1023,6 +1031,8 @@ func callBuiltin(caller *frame, callpos token.Pos, fn *ssa.Builtin, args []value
 			}
 		case *rope:
 			add = s.toBytes(caller)
+		case ropeBytes:
+			add = s.materialize(caller)
 		default:
 			add = args[1].([]value)
 		}
@@ -1083,6 +1093,11 @@ func callBuiltin(caller *frame, callpos token.Pos, fn *ssa.Builtin, args []value
 			return len(x)
 		case *rope:
 			return x.length(caller)
+		case ropeBytes:
+			if r, ok := x.r.(*rope); ok {
+				return r.length(caller)
+			}
+			return len(x.r.(string))
 		case array:
 			return len(x)
 		case *value:
@@ -1290,6 +1305,9 @@ func conv(fr *frame, t_dst, t_src types.Type, x value) value {
 
 	case *types.Slice:
 		// []byte or []rune -> string
+		if rb, ok := x.(ropeBytes); ok {
+			return rb.r
+		}
 		switch ut_src.Elem().Underlying().(*types.Basic).Kind() {
 		case types.Byte:
 			x := x.([]value)
